@@ -38,6 +38,7 @@ def check(ctx):
     ctx.rule("R7", "writers that share the capture pipe through different layers (text dispatcher, raw buffer) never leave text pending", floor=3)
     ctx.rule("R8", "the reader ends of the pipes between stages are closed only once the last stage is over: every call of the closer that releases them is made where the last stage is known to have finished (an alias stage runs on a thread of this process and reads through the very descriptor)", floor=3)
     ctx.rule("R9", "the thread that reaps a stage with the raw waitpid records the status it obtained - exit status or minus the signal - unconditionally: another watcher's Popen.poll() may already have stored the ECHILD placeholder 0 there", floor=2)
+    ctx.rule("R10", "the reader thread never waits for the consumer: the chunk queue between them is unbounded and put() is a plain blocking-free call - iterraw's synchronous branch (R3) waits for the last stage to exit *before* it reads, so a producer that can block on a full queue stops draining the pipe, the stage blocks on write and the capture never returns for outputs above the bound", floor=2)
     ctx.rule("R6", "captured stdout is not echoed to the terminal and stderr is not mixed into a stdout capture", floor=3)
 
     rd = ctx.repo.module(RD)
@@ -301,6 +302,7 @@ def check(ctx):
 
     _reader_ends(ctx)
     _reaper_records(ctx)
+    _queue_unbounded(ctx)
 
 
 def _reaper_records(ctx):
@@ -328,6 +330,29 @@ def _reaper_records(ctx):
     if n < 2:
         raise AnalysisError(f"{st}: only {n} reaping paths enumerated")
 
+
+
+def _queue_unbounded(ctx):
+    rd = ctx.repo.module(RD)
+    n = 0
+    for q, fn in rd.functions():
+        for c in calls_in(fn):
+            nm = call_name(c) or ""
+            if nm.split(".")[-1] in ("Queue", "LifoQueue", "PriorityQueue") and (nm.startswith("queue.") or nm.startswith("Queue") or "." not in nm):
+                n += 1
+                ms = (c.args[0] if c.args else None) or kwarg(c, "maxsize")
+                v = 0 if ms is None else const_value(ms, None)
+                ok = isinstance(v, int) and not isinstance(v, bool) and v <= 0
+                ctx.ob("R10", f"{RD}:{q}", f"`{short(c, 50)}` is unbounded (no maxsize)", ok, key=f"{q}|bounded-queue", where=loc(c), detail=None if ok else f"maxsize = {unparse(ms)}")
+    for q in ("populate_fd_queue",):
+        fn = rd.func(q)
+        for c in calls_in(fn):
+            if last_attr(c) in ("put", "put_nowait") and isinstance(c.func, ast.Attribute):
+                n += 1
+                ok = last_attr(c) == "put" and len(c.args) == 1 and not c.keywords
+                ctx.ob("R10", f"{RD}:{q}", f"`{short(c, 40)}` hands the chunk over without a timeout or a non-blocking mode that could drop it", ok, key=f"{q}|put-can-fail", where=loc(c))
+    if n < 2:
+        raise AnalysisError(f"{RD}: queue construction / put sites not found ({n})")
 
 TERMINAL_CLEANUP = {
     "CommandPipeline._end": "the pipeline is being ended: tee_stdout() has run the last stage to completion or an exception is unwinding",
